@@ -703,3 +703,67 @@ func RunLocalDeletion(s *storemc.Store, col *ev.Collector, label string, maxDept
 }
 
 var _ = common.WaitCompact
+
+// RunSkew: log timestamps that are not monotonic (two successive leaders whose clocks disagree), all
+// distinct: every triple of commands of the universe is applied with the log clocks of each pattern
+// (seconds after T0); replies and what reads show at and after the last log clock are compared with the
+// two-clock reference, which is indifferent to the order of the timestamps.
+var skewPatterns = [][3]int64{{100, 20, 50}, {100, 20, 25}, {50, 100, 20}, {20, 100, 50}}
+
+func RunSkew(s *storemc.Store, u *TTLUniverse, col *ev.Collector, label string, dl ev.Deadline) (runs int, complete bool) {
+	for _, pat := range skewPatterns {
+		for _, c1 := range u.Cmds {
+			for _, c2 := range u.Cmds {
+				if dl.Hit() {
+					SetClock(0, 0)
+					return runs, false
+				}
+				for _, c3 := range u.Cmds {
+					cmds := [][]string{c1, c2, c3}
+					// the farthest expiry is relative to the small clocks of the BFS: not used here
+					skip := false
+					for _, c := range cmds {
+						if len(c) > 2 && c[2] == farTTL {
+							skip = true
+						}
+					}
+					if skip {
+						continue
+					}
+					s.Load(storemc.Dump{})
+					m := TModel{m: map[string]*ent{}}
+					runs++
+					var path []string
+					bad := false
+					for i, c := range cmds {
+						clock := pat[i]
+						SetClock(clock, 0)
+						ts := (T0+clock)*1e9 + int64(i+1)
+						reply := s.Write(ts, c...)
+						exp := m.Apply(c, clock)
+						path = append(path, fmt.Sprintf("%s@%d", strings.Join(c, " "), clock))
+						if !matchReply(exp, reply) {
+							col.Add(ev.Violation{Property: "C10", Signature: "C10|" + strings.ToLower(c[0]) + "|reply", What: fmt.Sprintf("%s: non-monotonic log clocks %v: reply %v, two-clock reference model says %s", label, path, reply, exp),
+								Replay: map[string]interface{}{"label": label, "universe": u.Name, "path": path}})
+							bad = true
+							break
+						}
+						for _, rc := range []int64{clock, clock + 60} {
+							if got, want := StoreView(s, u, rc), m.View(u, rc); got != want {
+								col.Add(ev.Violation{Property: "C10", Signature: "C10|" + strings.ToLower(c[0]) + "|read-skewed-log-clock", What: fmt.Sprintf("%s: non-monotonic log clocks %v: reads at wall clock %d show {%s}, reference model says {%s}", label, path, rc, got, want),
+									Replay: map[string]interface{}{"label": label, "universe": u.Name, "path": path}})
+								bad = true
+								break
+							}
+						}
+						if bad {
+							break
+						}
+					}
+				}
+			}
+		}
+	}
+	SetClock(0, 0)
+	return runs, true
+}
